@@ -434,12 +434,27 @@ func runCapabilities(c *mc.Ctx, r *mc.Result) {
 		}
 	}
 	// helpers
-	for code := 100; code <= 599; code += 37 {
-		for _, body := range []string{"", "hello", strings.Repeat("z", 70000)} {
-			for _, helper := range []string{"String", "Blob", "Stream", "Blob+preset", "Stream+preset"} {
+	// every status code with the short bodies (incl. 204 and 304: the helpers send what they are given, it is the
+	// underlying writer's business to refuse a body); the long body with every 37th code; and each helper again
+	// after an earlier final WriteHeader (the recorded status stays the first one, the bytes are still sent)
+	for code := 100; code <= 599; code++ {
+		for bi, body := range []string{"", "hello", strings.Repeat("z", 70000)} {
+			if bi == 2 && (code-100)%37 != 0 {
+				continue
+			}
+			for _, helper := range []string{"String", "Blob", "Stream", "Blob+preset", "Stream+preset", "String+after204", "Blob+after204", "Stream+after304"} {
 				rw := fx.NewRW()
 				ctx := fox.NewTestContextOnly(rw, fx.Req("GET", "", "/"))
 				var err error
+				first := 0
+				if i := strings.Index(helper, "+after"); i >= 0 {
+					if bi == 2 || code%7 != 0 {
+						continue
+					}
+					first, _ = strconv.Atoi(helper[i+6:])
+					helper = helper[:i]
+					ctx.Writer().WriteHeader(first)
+				}
 				wantCT := "application/x-test"
 				if strings.HasSuffix(helper, "+preset") {
 					// a Content-Type already on the response (a default set by a middleware): the helper is
@@ -460,6 +475,13 @@ func runCapabilities(c *mc.Ctx, r *mc.Result) {
 				informational := code < 200 && code != 101
 				if informational {
 					continue // the status of an informational code followed by a body is the implicit 200
+				}
+				if first != 0 {
+					// the first final status stands; the helper's bytes are forwarded all the same
+					if err != nil || rw.Code != first || string(rw.Body) != body || ctx.Writer().Status() != first || ctx.Writer().Size() != len(body) {
+						r.Violate("capabilities", "helper", fmt.Sprintf("WriteHeader(%d) then %s(%d, %d bytes): err=%v status=%d body=%d bytes, recorder status=%d size=%d", first, helper, code, len(body), err, rw.Code, len(rw.Body), ctx.Writer().Status(), ctx.Writer().Size()), helper)
+					}
+					continue
 				}
 				if err != nil || rw.Code != code || string(rw.Body) != body || rw.H.Get("Content-Type") != wantCT {
 					r.Violate("capabilities", "helper", fmt.Sprintf("%s(%d, %d bytes): err=%v status=%d body=%d bytes content-type=%q", helper, code, len(body), err, rw.Code, len(rw.Body), rw.H.Get("Content-Type")), helper)
